@@ -25,7 +25,29 @@ SYSTEMS = ["Cubic", "Tetragonal", "Hexagonal", "Orthorhombic", "Rhombohedral", "
 
 
 def rand_cell(rng, system):
+    minimal, full = _rand_cell(rng, system)
+    if rng.random() < 0.1:           # the same numbers as numpy floats
+        minimal, full = tuple(np.float64(x) for x in minimal), tuple(np.float64(x) for x in full)
+    return minimal, full
+
+
+def _rand_cell(rng, system):
     a, b, c = (rng.uniform(1.5, 12) for _ in range(3))
+    ints = rng.random() < 0.3         # a cell typed in whole numbers: Python ints, not floats (lengths, and the free angles)
+    if ints:
+        a, b, c = (rng.randint(2, 12) for _ in range(3))
+        if system == "Rhombohedral":
+            al = rng.randint(40, 115)
+            return (a, al), (a, a, a, al, al, al)
+        if system == "Monoclinic":
+            be = rng.randint(60, 130)
+            return (a, b, c, be), (a, b, c, 90, be, 90)
+        if system == "Triclinic":
+            while True:
+                al, be, ga = (rng.randint(50, 130) for _ in range(3))
+                ca, cb, cg = (cos(radians(x)) for x in (al, be, ga))
+                if 1 + 2 * ca * cb * cg - ca * ca - cb * cb - cg * cg > 0.05 and len({a, b, c}) + len({al, be, ga}) > 3:
+                    return (a, b, c, al, be, ga), (a, b, c, al, be, ga)
     if system == "Cubic":
         return (a,), (a, a, a, 90, 90, 90)
     if system == "Tetragonal":
